@@ -59,7 +59,11 @@ class Job:
         if len(self.samples) < 4 and self.cases % 37 == 1:
             self.samples.append(dict(check=check, input=repr(inp)[:200],
                                      observed=repr(observed)[:120]))
-        if not ok and len(self.failures) < 25:
+        if not ok:
+            k2 = (check, signature or check)
+            self._per_key = getattr(self, "_per_key", {})
+            self._per_key[k2] = self._per_key.get(k2, 0) + 1
+        if not ok and self._per_key[k2] <= 3 and len(self.failures) < 40:
             self.failures.append(dict(check=check, input=repr(inp)[:400],
                                       observed=repr(observed)[:300],
                                       expected=repr(expected)[:300],
@@ -100,7 +104,7 @@ def main():
         out["failures"] += p["failures"]
         out["samples"] = (out["samples"] + p["samples"])[:6]
         out["bound"] = p["bound"] or out["bound"]
-    out["failures"] = out["failures"][:25]
+    out["failures"] = out["failures"][:120]
     print(json.dumps(out))
 
 
